@@ -15,6 +15,7 @@ import (
 	corev1 "k8s.io/api/core/v1"
 	netv1 "k8s.io/api/networking/v1"
 	"k8s.io/apimachinery/pkg/util/intstr"
+	"k8s.io/apimachinery/pkg/util/rand"
 	"sigs.k8s.io/controller-runtime/pkg/controller/controllerutil"
 	gatewayv1beta1 "sigs.k8s.io/gateway-api/apis/v1beta1"
 )
@@ -117,7 +118,8 @@ func (w *World) Project() map[string]interface{} {
 			rom["state"] = string(sub.CurrentStepState)
 			rom["next"] = int(sub.NextStepIndex)
 			rom["fstep"] = string(sub.FinalisingStep)
-			rom["hashOk"] = sub.RolloutHash != "" && sub.RolloutHash == ro.Annotations[util.RolloutHashAnnotation]
+			// status.rolloutHash equals the hash of the plan currently in the spec (the annotation may lag behind the spec)
+			rom["hashOk"] = sub.RolloutHash != "" && sub.RolloutHash == planHash(ro)
 			rom["hashSet"] = sub.RolloutHash != ""
 			rom["canaryRev"] = RevOf(canaryRevisionOf(ro))
 			rom["stableRev"] = RevOf(sub.StableRevision)
@@ -147,7 +149,10 @@ func (w *World) Project() map[string]interface{} {
 	out["br"] = w.projectBR(ro)
 	out["net"] = w.projectNet()
 	out["mem"] = w.projectMem()
-	out["ghost"] = map[string]interface{}{"readyHigh": w.Ghost.ReadyHigh, "created": w.Ghost.Created}
+	origOk, _ := w.UserOwnedEqual()
+	rs := append([]int{}, w.Ghost.ReadySteps...)
+	out["ghost"] = map[string]interface{}{"readySteps": rs, "created": w.Ghost.Created, "origOk": origOk, "brEver": w.Ghost.BrEver, "jumpBack": w.Ghost.JumpBack}
+	out["quiet"] = w.WL.Quiescent(w) && !w.gcPending()
 	return out
 }
 
@@ -162,6 +167,8 @@ func (w *World) projectBR(ro *v1beta1.Rollout) map[string]interface{} {
 		for _, f := range []string{"phase", "bstate", "policy", "rid", "obsRid"} {
 			m[f] = ""
 		}
+		m["plan"] = []map[string]interface{}{}
+		m["thrKind"], m["thrVal"] = "none", 0
 		for _, f := range []string{"batch", "obsR", "updRev", "stableRev", "nbatches", "stUpd", "stUpdRdy"} {
 			m[f] = 0
 		}
@@ -187,6 +194,20 @@ func (w *World) projectBR(ro *v1beta1.Rollout) map[string]interface{} {
 		}
 	}
 	m["planOk"] = planOk // spec.releasePlan.batches == Rollout steps' replicas
+	bsteps := []v1beta1.CanaryStep{}
+	for i := range br.Spec.ReleasePlan.Batches {
+		r := br.Spec.ReleasePlan.Batches[i].CanaryReplicas
+		bsteps = append(bsteps, v1beta1.CanaryStep{Replicas: &r})
+	}
+	m["plan"] = projectPlan(bsteps) // spec.releasePlan.batches[*].canaryReplicas
+	m["thrKind"], m["thrVal"] = "none", 0
+	if t := br.Spec.ReleasePlan.FailureThreshold; t != nil {
+		if t.Type == intstr.Int {
+			m["thrKind"], m["thrVal"] = "int", int(t.IntVal)
+		} else {
+			m["thrKind"], m["thrVal"] = "pct", pctOf(t.StrVal)
+		}
+	}
 	m["nbatches"] = len(br.Spec.ReleasePlan.Batches)
 	m["rid"] = br.Spec.ReleasePlan.RolloutID
 	m["obsRid"] = br.Status.ObservedRolloutID
@@ -218,6 +239,9 @@ func (w *World) projectNet() map[string]interface{} {
 		"ing": false, "ingWeight": -1, "ingMatch": "", "ingBackendOk": true, "ingPaths": 0,
 		"route": false, "rtStableW": -1, "rtCanaryW": -1, "rtGenRules": 0, "rtRules": 0, "rtOtherOk": true,
 	}
+	m["provIngress"] = w.ingressClass() != ""
+	m["provGateway"] = w.hasProvider("gateway")
+	m["noCanarySvc"] = w.Cfg.NoCanarySvc
 	svc := &corev1.Service{}
 	if w.S.Load(NS, SvcName, svc) {
 		m["hasSvc"] = true
@@ -354,4 +378,32 @@ func (w *World) UserOwnedEqual() (bool, string) {
 		return true, ""
 	}
 	return false, fmt.Sprintf("now %s, originally %s", cur, orig)
+}
+
+// planHash replicates RolloutReconciler.calculateRolloutHash (unexported): the hash of the strategy
+// with failureThreshold and the steps' pauses cleared.
+func planHash(ro *v1beta1.Rollout) string {
+	var data string
+	if ro.Spec.Strategy.BlueGreen != nil {
+		bg := ro.Spec.Strategy.BlueGreen.DeepCopy()
+		bg.FailureThreshold = nil
+		bg.Steps = nil
+		for i := range ro.Spec.Strategy.BlueGreen.Steps {
+			st := ro.Spec.Strategy.BlueGreen.Steps[i].DeepCopy()
+			st.Pause = v1beta1.RolloutPause{}
+			bg.Steps = append(bg.Steps, *st)
+		}
+		data = util.DumpJSON(bg)
+	} else if ro.Spec.Strategy.Canary != nil {
+		c := ro.Spec.Strategy.Canary.DeepCopy()
+		c.FailureThreshold = nil
+		c.Steps = nil
+		for i := range ro.Spec.Strategy.Canary.Steps {
+			st := ro.Spec.Strategy.Canary.Steps[i].DeepCopy()
+			st.Pause = v1beta1.RolloutPause{}
+			c.Steps = append(c.Steps, *st)
+		}
+		data = util.DumpJSON(c)
+	}
+	return rand.SafeEncodeString(util.EncodeHash(data))
 }
